@@ -25,6 +25,12 @@ CHECKS = {
         note="Trusted: pyvc, z3. Assumed: rendering and the duplicate filter of halmos.logs are not modelled (observable = the call); the verdict consequence of a stuck path is the C05 proof; whole-loop orchestration of SEVM.run is not under contract; run_target_function's warning is emitted when its generator is consumed to the end.",
         technique="fragment/function VCs generated from the real source AST (pyvc) with a ghost warning log, symbolic limits and counters, z3 LIA",
     ),
+    "C14": dict(
+        text="Deductive: the Prank record is proved to be the two-field state machine of the property for every state, operation and target address (int-backed addresses with an arbitrary value, term-backed addresses, both cheatcode addresses): prank/startPrank succeed iff none is active and record exactly (sender, origin, persistence); lookup applies the active prank to a call iff its target is not a cheatcode address and consumes it iff it is one-shot; cheatcode calls neither see nor consume it; Exec.resolve_prank maps the record to msg.sender / tx.origin; every CallContext construction site starts from a fresh Prank (nested frames, later transactions). The prank arms of hevm_cheat_code.handle pass the low 160 bits of the right argument words and turn a refusal into an error; fee/chainId/coinbase/difficulty/roll/warp change exactly one block field and the matching reading arm of SEVM.run pushes exactly the supplied word; deal / balance_update are pointwise (targeted account only). create_uint/int (all widths, >256 rejected), uint256/int256/bytes32/address/bool/bytes4/bytes8/bytes and the min/max variant return the ABI encoding (zero/sign extension, left alignment, length prefix) of one unconstrained symbol of the requested width whose label carries a per-path counter proved strictly increasing; range constraints are exactly min <= v <= max.",
+        ref="DESIGN.md 4/C14 and 11",
+        note="Trusted: pyvc, z3. Assumed: cheatcode calls are recognised by the literal address (as SEVM.call does); deepcopy carries the caller's record across calls; store/load/etch arms are not under contract (they go through sstore/sload/set_code: C08); ByteVec operations used by the encoders run through the interpreter on concrete layouts; independence of created symbols rests on label uniqueness via the proved counter (uid() not relied on).",
+        technique="state-machine and encoder contracts: VCs from the real source AST (pyvc) over symbolic addresses/words, handle() fragments composed with run() reading arms, syntactic site check, z3",
+    ),
     "C16": dict(
         text="Deductive, with ghost state meaning: id -> condition: (1) Path.to_smt2 with caching pins every condition whose z3 id is exported as an assertion name in a module-level registry that the module never shrinks, so by the external contract of get_id (unique among live terms) an id never changes meaning; (2) from_result attaches the core parsed from the same output iff the answer is unsat and caching is on; (3) the callback records a core only for unsat and only if non-empty; append_unsat_core stores it where solve_end_to_end looks; (4) check_unsat_cores is True iff some recorded core is a subset of the query's ids (every membership combination, symbolic); (5) solve_end_to_end answers unsat without a solver only on such a hit and otherwise returns the solver's (or the refined query's) answer. With solver soundness this gives: a cached unsat is only given to a query containing a set of conditions a solver proved unsatisfiable. A genuine defect (id reuse after garbage collection gave a false hit) was found by this obligation, replayed natively and repaired.",
         ref="DESIGN.md 4/C16 and 11",
